@@ -523,7 +523,7 @@ def delegation_edits(R, I, tier):
     TE = 'TargetsEditor'
     def tfn(name, first='_1: &'):
         for n, fs in I.funcs.items():
-            if 'editor/targets.rs:87:' in n and n.endswith('>::' + name) and fs[0].args.startswith(first): return fs[0]
+            if 'editor/targets.rs:' in n and n.endswith('>::' + name) and fs[0].args.startswith(first): return fs[0]
         raise Stuck('TargetsEditor::' + name + ' not found in the MIR')
     f_delegate, f_build, f_sign = tfn('delegate_role', '_1: &mut TargetsEditor'), tfn('build_targets', '_1: &TargetsEditor'), tfn('sign', '_1: &TargetsEditor')
     KID = z3.Function('KeyIdOf', z3.BitVecSort(16), z3.BitVecSort(8))       # key ids are a function of the key (digest of its canonical form)
@@ -849,3 +849,125 @@ def editor_switch(R, I, tier):
             R.obligation(f'{label}: every other role keeps its stored metadata', s.pc, editor.conj(out), group='switch/sign-others')
         if role not in ('nobody',): R.reach_any(f'{label}: succeeds', [s.pc for s in oks])
         R.samples.append({'case': label, 'paths': len(done)})
+
+# ------------------------------------------------------------------ TargetsWalker::walk_targets (copy_targets / link_targets over a directory)
+def walk_publication(R, I, tier):
+    """publication by walking a directory: the operator (copy_target / link_target) is applied to every regular file the walk reaches — also
+    through symbolic links, which is what a directory produced by link_targets consists of — with the caller's output directory and replace
+    behaviour; files that are not targets are skipped, any other failure ends the walk with that error; Ok means every reachable file was handled.
+    walkdir's documented contract is the model of the directory iterator: the root first, then every entry; with follow_links(true) a link is
+    reported with the type of what it points to and a linked directory is descended into; without it links are reported as links."""
+    from deleg import m_box_pin
+    ctor = I.funcs.get('TargetsWalker::walk_targets')
+    if not ctor: raise Stuck('TargetsWalker::walk_targets not found in the MIR')
+    ctor = ctor[0]
+    FILE, DIR, LFILE, LDIR, IOERR = 'file', 'dir', 'link->file', 'link->dir{file}', 'error'
+    layouts = [[FILE], [LFILE], [LDIR], [FILE, LFILE, LDIR], [DIR, FILE], [FILE, IOERR, FILE]]
+    if tier == 'quick': layouts = [[FILE, LFILE, LDIR], [DIR, FILE], [FILE, IOERR, FILE]]
+    R.bounds['walk_targets'] = 'input directories of up to 3 entries out of {regular file, sub-directory, link to a file, link to a directory holding one file, unreadable entry}; every operator outcome symbolic (Ok / PathIsNotTarget / another error)'
+    R.assumptions.append('walkdir contract: root first, then each entry; follow_links(true) reports a link with the type of its target and descends into linked directories; otherwise links are reported as links (is_file() false); '
+                         'tokio mpsc channel + spawn_blocking sequentialised (producer runs to completion, the consumer then drains the queue in order)')
+    for layout in layouts:
+        label = 'walk_targets[' + ', '.join(layout) + ']'
+        st = State(); st.env['fs'] = {}
+        def entries(follow):
+            """what walkdir yields below the root: list of ('ok', path, is_file) | ('err',)"""
+            out = []
+            for i, k in enumerate(layout):
+                p = f'IN/e{i}'
+                if k == FILE: out.append(('ok', p, True))
+                elif k == DIR: out.append(('ok', p, False))
+                elif k == LFILE: out.append(('ok', p, bool(follow)))
+                elif k == LDIR:
+                    out.append(('ok', p, False))
+                    if follow: out.append(('ok', p + '/inner', True))
+                elif k == IOERR: out.append(('err',))
+            return out
+        reachable = [e[1] for e in entries(True) if e[0] == 'ok' and e[2]]          # the regular files reachable when links are followed
+        first_err = next((i for i, e in enumerate(entries(True)) if e[0] == 'err'), None)
+        qcell = st.alloc(Obj('queue', items=[]))
+        def m_create_dir_all(I_, s, fr, c, a, d, de, rb): return leaf_future('walk_io', what='create_dir_all')
+        def m_canon(I_, s, fr, c, a, d, de, rb): return leaf_future('walk_io', what='canonicalize')
+        def op_io(I_, s, fut):
+            okf = z3.Bool(fresh_name(fut.d['what'] + '_ok'))
+            val = unit() if fut.d['what'] == 'create_dir_all' else Obj('path', key='IN')
+            return Forks([(okf, mk_ready(mk_ok(val)), lambda s2: s2.events.append(('io', fut.d['what'], True))), (z3.Not(okf), mk_ready(mk_err(Obj('io_error'))), lambda s2: s2.events.append(('io', fut.d['what'], False)))])
+        LEAF_OPS['walk_io'] = op_io
+        def m_channel(I_, s, fr, c, a, d, de, rb): return Adt('tuple', None, {(None, 0): Obj('sender', q=qcell), (None, 1): Obj('receiver', q=qcell)})
+        def h_spawn(I_, s, fr):
+            if 'ret' in fr.data: fr.data.pop('ret'); I_.do_return(s, Obj('join_handle')); return [s]
+            raise Stuck('spawn_blocking driver re-entered')
+        def m_spawn(I_, s, fr, c, a, d, de, rb):
+            clos = mat(I_, s, a[0]); fnc = I_.resolve_closure(clos.ty if isinstance(clos, (Adt, Unknown)) else '')
+            if fnc is None: raise Stuck('closure given to spawn_blocking not found')
+            s.frames.append(ModelFrame(h_spawn, {}, de, rb))
+            I_.push_call(s, fnc, [clos], None, None); return PUSHED
+        def m_wd_new(I_, s, fr, c, a, d, de, rb): return Obj('walkdir', follow=False)
+        def m_wd_follow(I_, s, fr, c, a, d, de, rb):
+            w = mat(I_, s, a[0]); b = z3.simplify(I_.as_z3(s, mat(I_, s, a[1])))
+            if not (z3.is_true(b) or z3.is_false(b)): raise Stuck('follow_links with a symbolic flag')
+            return Obj('walkdir', follow=bool(z3.is_true(b)))
+        def m_wd_iter(I_, s, fr, c, a, d, de, rb):
+            w = mat(I_, s, a[0])
+            items = [mk_ok(Obj('dirent', path='IN', is_file=False))] + [mk_ok(Obj('dirent', path=e[1], is_file=e[2])) if e[0] == 'ok' else mk_err(Obj('walkdir_error')) for e in entries(w.d['follow'])]
+            s.events.append(('walkdir', w.d['follow']))
+            return Obj('iter', vec=Ref(s.alloc(Obj('vec', elems=[s.alloc(x) for x in items]))), pos=0, owned=True)
+        def m_send(I_, s, fr, c, a, d, de, rb):
+            tx = dr(I_, s, a[0]); q = s.heap[tx.d['q']]; q.d['items'] = q.d['items'] + [mat(I_, s, a[1])]; return mk_ok(unit())
+        def m_is_err(I_, s, fr, c, a, d, de, rb):
+            r = mat(I_, s, a[0]); dd = discr_of(I_, s, dr(I_, s, r)); return z3.BoolVal(dd == 1) if isinstance(dd, int) else dd == 1
+        def m_recv(I_, s, fr, c, a, d, de, rb): return leaf_future('walk_recv', rx=dr(I_, s, a[0]))
+        def op_recv(I_, s, fut):
+            q = s.heap[fut.d['rx'].d['q']]
+            if not q.d['items']: return mk_ready(mk_none())
+            x = q.d['items'][0]; q.d['items'] = q.d['items'][1:]; return mk_ready(mk_some(x))
+        LEAF_OPS['walk_recv'] = op_recv
+        def m_file_type(I_, s, fr, c, a, d, de, rb): return Obj('filetype', is_file=dr(I_, s, a[0]).d['is_file'])
+        def m_is_file(I_, s, fr, c, a, d, de, rb): return z3.BoolVal(bool(dr(I_, s, a[0]).d['is_file']))
+        def m_de_path(I_, s, fr, c, a, d, de, rb): return Obj('path', key=dr(I_, s, a[0]).d['path'])
+        def m_call_op(I_, s, fr, c, a, d, de, rb):
+            tup = mat(I_, s, a[1])
+            g = lambda i: dr(I_, s, tup.fields[(None, i)])
+            name = mat(I_, s, tup.fields[(None, 4)])
+            return leaf_future('walk_op', path=g(1).d.get('key'), outdir=g(2).d.get('key'), replace=mat(I_, s, tup.fields[(None, 3)]), named=discr_of(I_, s, name))
+        other_err = 'HashMismatch' if 'HashMismatch' in I.error_variants else next(v for v in I.error_variants if v != 'PathIsNotTarget')
+        def op_walk_op(I_, s, fut):
+            n = fresh_name('op'); ok = z3.Bool(n + '_ok'); nt = z3.Bool(n + '_not_a_target')
+            rec = lambda outcome: (lambda s2: s2.events.append(('op', fut.d['path'], fut.d['outdir'], fut.d['replace'], fut.d['named'], outcome)))
+            return Forks([(ok, mk_ready(mk_ok(unit())), rec('ok')), (z3.And(z3.Not(ok), nt), mk_ready(mk_err(error('PathIsNotTarget'))), rec('not-a-target')),
+                          (z3.And(z3.Not(ok), z3.Not(nt)), mk_ready(mk_err(error(other_err))), rec('error'))])
+        LEAF_OPS['walk_op'] = op_walk_op
+        ms = [(RXc(r'^tokio::fs::create_dir_all::<'), m_create_dir_all), (RXc(r'^tokio::fs::canonicalize::<'), m_canon), (RXc(r'^tokio::sync::mpsc::channel::<'), m_channel),
+              (RXc(r'^(tokio::task::)?spawn_blocking::<'), m_spawn), (RXc(r'^WalkDir::new::<'), m_wd_new), (RXc(r'^WalkDir::follow_links$'), m_wd_follow), (RXc(r'^<WalkDir as IntoIterator>::into_iter$'), m_wd_iter),
+              (RXc(r'^<walkdir::IntoIter as Iterator>::next$'), stdm.m_iter_next), (RXc(r'^tokio::sync::mpsc::Sender::<.*>::blocking_send$'), m_send), (RXc(r'^std::result::Result::<\(\), tokio::sync::mpsc::error::SendError<.*>>::is_err$'), m_is_err),
+              (RXc(r'^tokio::sync::mpsc::Receiver::<.*>::recv$'), m_recv), (RXc(r'^walkdir::DirEntry::file_type$'), m_file_type), (RXc(r'^FileType::is_file$'), m_is_file), (RXc(r'^walkdir::DirEntry::path$'), m_de_path),
+              (RXc(r'^<F as FnMut<.*>>::call_mut$'), m_call_op), (RXc(r'^Box::<\{async block@.*\}>::pin$'), m_box_pin), (RXc(r'^<std::path::PathBuf as Clone>::clone$'), stdm.m_clone_deep)] + editor.install_format_models() + stdm.STD_MODELS
+        saved = list(I.models); I.models[:0] = ms
+        try:
+            replace = Adt('PathExists', z3.BitVec('replace_behavior', 64), {})
+            st.frames.append(ModelFrame(h_async_driver, {'phase': 0, 'ctor': ctor, 'args': [Ref(st.alloc(Obj('signed_repo'))), Obj('path', key='INDIR'), Obj('path', key='OUT'), Obj('walk_operator'), replace], 'generics': None}))
+            done = []; I.run(st, done.append)
+        finally:
+            I.models[:] = saved
+        R.check_interp_clean(I, label)
+        oks = []
+        for s in done:
+            R.paths += 1
+            tag, _ = classify(s.result)
+            ops = [e for e in s.events if e[0] == 'op']; ios = [e for e in s.events if e[0] == 'io']
+            called = [e[1] for e in ops]
+            R.obligation(f'{label}: the operator is applied only to regular files of the input directory, each at most once, in walk order, with the caller\'s output directory and no explicit name', s.pc,
+                         z3.BoolVal(called == reachable[:len(called)] and all(e[2] == 'OUT' and e[4] == 0 for e in ops)), group='walk/only-files')
+            for e in ops:
+                rv = e[3]; dd = rv.discr if isinstance(rv, Adt) else None
+                R.obligation(f'{label}: the replace behaviour is passed on unchanged', s.pc, (dd == z3.BitVec('replace_behavior', 64)) if dd is not None and not isinstance(dd, int) else z3.BoolVal(False), group='walk/replace-behaviour')
+            if tag == 'Ok':
+                oks.append(s)
+                R.obligation(f'{label}: Ok => every regular file reachable in the input directory (through links too) was handed to the operator, and each outcome was success or "not a target"', s.pc,
+                             z3.BoolVal(called == reachable and all(e[5] in ('ok', 'not-a-target') for e in ops) and first_err is None), group='walk/ok-complete')
+            else:
+                why = any(not e[2] for e in ios) or any(e[5] == 'error' for e in ops) or first_err is not None
+                R.obligation(f'{label}: failure only for a failed directory operation, an unreadable entry or an operator error other than "not a target"; the walk ends at that error', s.pc,
+                             z3.BoolVal(bool(why) and not any(e[5] == 'error' for e in ops[:-1])), group='walk/failure-justified')
+        if first_err is None: R.reach_any(f'{label}: a walk that publishes everything is reachable', [s.pc for s in oks if len([e for e in s.events if e[0] == 'op']) == len(reachable)])
+        R.samples.append({'case': label, 'paths': len(done), 'ok': len(oks)})
